@@ -258,4 +258,256 @@ example : Generated.Partition.ctor_block 1 2 8 6 2 3 = (8, 6, 4, 4, 3, 3, 7, 5, 
 example : Generated.Topology.get_node 4 3 2 0 7 = 1 := by decide
 example : Generated.Topology.get_global_proc 4 3 2 0 1 2 = 7 := by decide
 
+
+/-! ## Owner lookup `form_col_to_proc`: the translated loops agree with `walkDown` / `walkUp`
+
+`Generated.Partition.owner_search` is the body of the lookup for one column, over `Int`, the two
+`while` loops as fuel-recursive functions; `first_cols` is read as a function `Int → Int`. A list
+`fc` of the model is embedded as `fcI fc` (0 outside the list, like `List.getD _ 0`).
+`owner_search_defined` threads a flag that goes false on a division by zero, on a read
+`first_cols[i]` with `i` outside `[0, first_cols_len)`, or when a loop has not stopped within the
+fuel. -/
+
+/-- the gathered `first_cols` array as the translated code reads it -/
+def fcI (fc : List Nat) : Int → Int := fun i => ((fc.getD i.toNat 0 : Nat) : Int)
+
+theorem fcI_cast (fc : List Nat) (a : Nat) : fcI fc (a : Int) = ((fc.getD a 0 : Nat) : Int) := by
+  simp [fcI]
+
+theorem fcI_cast_succ (fc : List Nat) (a : Nat) :
+    fcI fc ((a : Int) + 1) = ((fc.getD (a+1) 0 : Nat) : Int) := by
+  have h : ((a : Int) + 1) = ((a + 1 : Nat) : Int) := by push_cast; rfl
+  rw [h, fcI_cast]
+
+theorem succ_sub_one_cast (a : Nat) : (((a + 1 : Nat) : Int) - 1) = (a : Int) := by
+  push_cast; omega
+
+/-- **loop 1** (`while (col < first_cols[a]) a--`): when the model's `walkDown` succeeds (it never
+    reaches index −1), the translated loop started at the same index with more fuel than that index
+    stops at the same place -/
+theorem loop1_bridge (fc : List Nat) (col : Nat) :
+    ∀ (a fuel b : Nat), Partition.walkDown fc col a = some b → a < fuel →
+      Generated.Partition.owner_search_loop1 (fcI fc) (col : Int) fuel (a : Int) = (b : Int) := by
+  intro a
+  induction a with
+  | zero =>
+    intro fuel b h hf
+    obtain ⟨f, rfl⟩ : ∃ f, fuel = f + 1 := ⟨fuel - 1, by omega⟩
+    rw [Generated.Partition.owner_search_loop1, fcI_cast]
+    simp only [Partition.walkDown] at h
+    by_cases hc : col < fc.getD 0 0
+    · rw [if_pos hc] at h; cases h
+    · rw [if_neg hc] at h
+      have hb : 0 = b := Option.some.inj h
+      have hc' : ¬ ((col : Int) < ((fc.getD 0 0 : Nat) : Int)) := by omega
+      rw [if_neg hc', hb]
+  | succ a ih =>
+    intro fuel b h hf
+    obtain ⟨f, rfl⟩ : ∃ f, fuel = f + 1 := ⟨fuel - 1, by omega⟩
+    rw [Generated.Partition.owner_search_loop1, fcI_cast]
+    simp only [Partition.walkDown] at h
+    by_cases hc : col < fc.getD (a+1) 0
+    · rw [if_pos hc] at h
+      have hc' : ((col : Int) < ((fc.getD (a+1) 0 : Nat) : Int)) := by omega
+      rw [if_pos hc']
+      simp only [succ_sub_one_cast]
+      exact ih f b h (by omega)
+    · rw [if_neg hc] at h
+      have hb : a + 1 = b := Option.some.inj h
+      have hc' : ¬ ((col : Int) < ((fc.getD (a+1) 0 : Nat) : Int)) := by omega
+      rw [if_neg hc', hb]
+
+/-- the model's second loop is insensitive to fuel beyond `np - (a+1)`: it has stopped by then -/
+theorem walkUp_fuel_irrelevant (fc : List Nat) (np col : Nat) :
+    ∀ (f g a : Nat), np ≤ a + 1 + f → f ≤ g →
+      Partition.walkUp fc np col g a = Partition.walkUp fc np col f a := by
+  intro f
+  induction f with
+  | zero =>
+    intro g a h _
+    cases g with
+    | zero => rfl
+    | succ g =>
+      have hn : ¬ (a + 1 < np ∧ fc.getD (a+1) 0 ≤ col) := fun hh => by omega
+      simp only [Partition.walkUp, if_neg hn]
+  | succ f ih =>
+    intro g a h hg
+    obtain ⟨g', rfl⟩ : ∃ g', g = g' + 1 := ⟨g - 1, by omega⟩
+    simp only [Partition.walkUp]
+    by_cases hc : a + 1 < np ∧ fc.getD (a+1) 0 ≤ col
+    · rw [if_pos hc, if_pos hc]
+      exact ih g' (a+1) (by omega) (by omega)
+    · rw [if_neg hc, if_neg hc]
+
+/-- **loop 2**, step for step: with the same fuel the translated loop and `walkUp` coincide -/
+theorem loop2_eq_walkUp (fc : List Nat) (np col : Nat) :
+    ∀ (fuel a : Nat),
+      Generated.Partition.owner_search_loop2 (fcI fc) (col : Int) (np : Int) fuel (a : Int)
+        = ((Partition.walkUp fc np col fuel a : Nat) : Int) := by
+  intro fuel
+  induction fuel with
+  | zero => intro a; rfl
+  | succ f ih =>
+    intro a
+    rw [Generated.Partition.owner_search_loop2, fcI_cast_succ]
+    simp only [Partition.walkUp]
+    by_cases hc : a + 1 < np ∧ fc.getD (a+1) 0 ≤ col
+    · have hc' : ((a : Int) < (np : Int) - 1) ∧ ((col : Int) ≥ ((fc.getD (a+1) 0 : Nat) : Int)) :=
+        ⟨by omega, by omega⟩
+      rw [if_pos hc, if_pos hc']
+      have h : ((a : Int) + 1) = ((a + 1 : Nat) : Int) := by push_cast; rfl
+      simp only [h]
+      exact ih (a+1)
+    · have hc' : ¬ (((a : Int) < (np : Int) - 1) ∧ ((col : Int) ≥ ((fc.getD (a+1) 0 : Nat) : Int))) := by
+        intro hh; exact hc ⟨by omega, by omega⟩
+      rw [if_neg hc, if_neg hc']
+
+/-- **loop 2** (`while (a < np-1 && col >= first_cols[a+1]) a++`): with any fuel `≥ np` the
+    translated loop ends where the model's loop (fuel `np`) ends -/
+theorem loop2_bridge (fc : List Nat) (np col fuel a : Nat) (hf : np ≤ fuel) :
+    Generated.Partition.owner_search_loop2 (fcI fc) (col : Int) (np : Int) fuel (a : Int)
+      = ((Partition.walkUp fc np col np a : Nat) : Int) := by
+  rw [loop2_eq_walkUp, walkUp_fuel_irrelevant fc np col np fuel a (by omega) hf]
+
+/-- **Bridge for the owner lookup.** Whatever the model's `ownerSearch` returns, the translated
+    `form_col_to_proc` body returns, given fuel for both loops. -/
+theorem owner_search_bridge (fc : List Nat) (assumed np col rk fuel p : Nat)
+    (ha : 0 < assumed) (hf : np ≤ fuel) (hf1 : col / assumed < fuel)
+    (h : Partition.ownerSearch fc assumed np col = some p) :
+    Generated.Partition.owner_search (assumed : Int) (rk : Int) (np : Int) (fcI fc) fuel (col : Int)
+      = (p : Int) := by
+  unfold Partition.ownerSearch at h
+  rw [if_neg (Nat.ne_of_gt ha)] at h
+  cases hw : Partition.walkDown fc col (col / assumed) with
+  | none => rw [hw] at h; cases h
+  | some b =>
+    rw [hw] at h
+    have hp : Partition.walkUp fc np col np b = p := Option.some.inj h
+    unfold Generated.Partition.owner_search
+    simp only [tdiv_cast]
+    rw [loop1_bridge fc col (col / assumed) fuel b hw hf1, loop2_bridge fc np col fuel b hf, hp]
+
+/-- **The owner lookup, as translated from the C++, returns precisely the owning process**: on every
+    valid `first_cols` (monotone, from 0 to `nCols`; empty ranks allowed) and every column, a rank
+    `p < np` with `first_cols[p] ≤ col < first_cols[p+1]`. -/
+theorem gen_owner_search_correct (fc : List Nat) (np nCols assumed col rk fuel : Nat)
+    (hv : C18.FcValid fc np nCols) (hnp : 0 < np) (ha : 0 < assumed) (hcol : col < nCols)
+    (hstart : col / assumed < np) (hf : np ≤ fuel) :
+    ∃ p : Nat,
+      Generated.Partition.owner_search (assumed : Int) (rk : Int) (np : Int) (fcI fc) fuel (col : Int)
+        = (p : Int) ∧ p < np ∧ fc.getD p 0 ≤ col ∧ col < fc.getD (p+1) 0 := by
+  obtain ⟨p, hp, h1, h2, h3⟩ := C18.ownerSearch_correct fc np nCols assumed col hv hnp ha hcol hstart
+  exact ⟨p, owner_search_bridge fc assumed np col rk fuel p ha hf (by omega) hp, h1, h2, h3⟩
+
+/-! ### Definedness of the owner lookup -/
+
+/-- loop 1 with the flag: started with `ok = true` at an index inside the array, with more fuel than
+    that index, and the model's `walkDown` succeeding (no step to −1), the flag stays `true` and the
+    index is that of the plain loop -/
+theorem defined_loop1_ok (fc : List Nat) (col len : Nat) :
+    ∀ (a fuel b : Nat), Partition.walkDown fc col a = some b → a < fuel → a < len →
+      Generated.Partition.owner_search_defined_loop1 (fcI fc) (len : Int) (col : Int) fuel ((a : Int), true)
+        = (Generated.Partition.owner_search_loop1 (fcI fc) (col : Int) fuel (a : Int), true) := by
+  intro a
+  induction a with
+  | zero =>
+    intro fuel b h hf hl
+    obtain ⟨f, rfl⟩ : ∃ f, fuel = f + 1 := ⟨fuel - 1, by omega⟩
+    rw [Generated.Partition.owner_search_defined_loop1, Generated.Partition.owner_search_loop1, fcI_cast]
+    simp only [Partition.walkDown] at h
+    by_cases hc : col < fc.getD 0 0
+    · rw [if_pos hc] at h; cases h
+    · have hc' : ¬ ((col : Int) < ((fc.getD 0 0 : Nat) : Int)) := by omega
+      have h1 : (0 : Int) ≤ ((0 : Nat) : Int) := by omega
+      have h2 : ((0 : Nat) : Int) < (len : Int) := by omega
+      simp only [if_neg hc', h1, h2, decide_true, Bool.and_self]
+  | succ a ih =>
+    intro fuel b h hf hl
+    obtain ⟨f, rfl⟩ : ∃ f, fuel = f + 1 := ⟨fuel - 1, by omega⟩
+    rw [Generated.Partition.owner_search_defined_loop1, Generated.Partition.owner_search_loop1, fcI_cast]
+    simp only [Partition.walkDown] at h
+    have h1 : (0 : Int) ≤ ((a + 1 : Nat) : Int) := by omega
+    have h2 : ((a + 1 : Nat) : Int) < (len : Int) := by omega
+    by_cases hc : col < fc.getD (a+1) 0
+    · rw [if_pos hc] at h
+      have hc' : ((col : Int) < ((fc.getD (a+1) 0 : Nat) : Int)) := by omega
+      simp only [if_pos hc', succ_sub_one_cast, h1, h2, decide_true, Bool.and_self]
+      exact ih f b h (by omega) (by omega)
+    · have hc' : ¬ ((col : Int) < ((fc.getD (a+1) 0 : Nat) : Int)) := by omega
+      simp only [if_neg hc', h1, h2, decide_true, Bool.and_self]
+
+/-- loop 2 with the flag: started with `ok = true` at a rank `a < np`, with `np ≤ len` entries
+    readable and fuel `≥ np - a`, the flag stays `true` and the index is that of the plain loop -/
+theorem defined_loop2_ok (fc : List Nat) (np col len : Nat) (hlen : np ≤ len) :
+    ∀ (fuel a : Nat), a < np → np ≤ a + fuel →
+      Generated.Partition.owner_search_defined_loop2 (fcI fc) (len : Int) (col : Int) (np : Int) fuel ((a : Int), true)
+        = (Generated.Partition.owner_search_loop2 (fcI fc) (col : Int) (np : Int) fuel (a : Int), true) := by
+  intro fuel
+  induction fuel with
+  | zero => intro a h1 h2; omega
+  | succ f ih =>
+    intro a ha hf
+    rw [Generated.Partition.owner_search_defined_loop2, Generated.Partition.owner_search_loop2]
+    have hok : (!(decide ((a : Int) < (np : Int) - 1)) ||
+        (decide ((0 : Int) ≤ (a : Int) + 1) && decide ((a : Int) + 1 < (len : Int)))) = true := by
+      by_cases hlt : (a : Int) < (np : Int) - 1
+      · have h1 : (0 : Int) ≤ (a : Int) + 1 := by omega
+        have h2 : (a : Int) + 1 < (len : Int) := by omega
+        simp [hlt, h1, h2]
+      · simp [hlt]
+    simp only [hok, Bool.and_self]
+    by_cases hc : ((a : Int) < (np : Int) - 1) ∧ ((col : Int) ≥ fcI fc ((a : Int) + 1))
+    · rw [if_pos hc, if_pos hc]
+      have h : ((a : Int) + 1) = ((a + 1 : Nat) : Int) := by push_cast; rfl
+      simp only [h]
+      exact ih (a+1) (by omega) (by omega)
+    · rw [if_neg hc, if_neg hc]
+
+/-- **Definedness of the owner lookup**: on a valid `first_cols` of `np + 1` entries, for every
+    column, with fuel `≥ np`: no division by zero, every `first_cols[i]` read lies inside the array
+    (the walk down stops at index 0 at the latest because `first_cols[0] = 0 ≤ col`), and both loops
+    stop within the fuel. -/
+theorem owner_search_defined_true (fc : List Nat) (np nCols assumed col rk fuel : Nat)
+    (hv : C18.FcValid fc np nCols) (hnp : 0 < np) (ha : 0 < assumed) (hcol : col < nCols)
+    (hstart : col / assumed < np) (hf : np ≤ fuel) :
+    Generated.Partition.owner_search_defined (assumed : Int) (rk : Int) (np : Int) (fcI fc)
+      ((np : Int) + 1) fuel (col : Int) = true := by
+  have h0 : fc.getD 0 0 ≤ col := by rw [hv.zero]; exact Nat.zero_le _
+  obtain ⟨b, hb, hble, _, _⟩ := C18.walkDown_spec fc col h0 (col / assumed)
+  have hlen : ((np : Int) + 1) = ((np + 1 : Nat) : Int) := by push_cast; rfl
+  have e : (assumed : Int) ≠ 0 := by omega
+  unfold Generated.Partition.owner_search_defined
+  simp only [tdiv_cast, hlen]
+  have hok : (true && ((assumed : Int) != 0)) = true := by simp; omega
+  rw [hok, defined_loop1_ok fc col (np + 1) (col / assumed) fuel b hb (by omega) (by omega),
+    loop1_bridge fc col (col / assumed) fuel b hb (by omega)]
+  simp only
+  rw [defined_loop2_ok fc np col (np + 1) (by omega) fuel b (by omega) (by omega)]
+
+/-! ### Why `first_cols` must be monotone: the defect the repair of `first_local_col` removed
+
+Before the repair, a rank that owned no rows published `first_local_col = 0`. For 2 rows × 2 columns
+on 4 ranks the gathered table was `[0, 1, 0, 0, 2]`: not monotone. Every read is in range and both
+loops stop — the lookup is *defined* — but it returns rank 3, whose block `[0, 2) ∩ rows = ∅` is
+empty (`local_num_cols = 0`): the owner of column 1 is rank 1. -/
+example : Generated.Partition.owner_search 1 0 4 (fcI [0, 1, 0, 0, 2]) 4 1 = 3 := by decide
+example : Generated.Partition.owner_search_defined 1 0 4 (fcI [0, 1, 0, 0, 2]) 5 4 1 = true := by decide
+/-- the table is not valid in the sense of `FcValid` (so `gen_owner_search_correct` does not apply) -/
+example : ¬ C18.FcValid [0, 1, 0, 0, 2] 4 2 := fun h => by
+  have := h.mono 1 (by decide)
+  revert this; decide
+/-- after the repair the table is `[0, 1, 2, 2, 2]` and the same lookup returns rank 1 -/
+example : Generated.Partition.owner_search 1 0 4 (fcI [0, 1, 2, 2, 2]) 4 1 = 1 := by decide
+
+/-! non-vacuity of the owner-lookup bridge -/
+example : Generated.Partition.owner_search 2 0 3 (fcI [0, 2, 4, 5]) 4 3 = 1 := by decide
+example : Generated.Partition.owner_search_defined 2 0 3 (fcI [0, 2, 4, 5]) 4 4 3 = true := by decide
+/-- fewer rows than ranks: ranks 1..3 are empty and publish `nCols` -/
+example : Generated.Partition.owner_search 1 0 4 (fcI [0, 3, 3, 3, 3]) 4 2 = 0 := by decide
+example : Generated.Partition.owner_search_defined 1 0 4 (fcI [0, 3, 3, 3, 3]) 5 4 2 = true := by decide
+/-- fuel exhausted is reported as undefined, not silently truncated -/
+example : Generated.Partition.owner_search_defined 1 0 4 (fcI [0, 3, 3, 3, 3]) 5 2 2 = false := by decide
+/-- a column below `first_cols[0]` would read `first_cols[-1]`: flagged -/
+example : Generated.Partition.owner_search_defined 1 0 2 (fcI [1, 2, 3]) 3 4 0 = false := by decide
+
 end Raptor.C18Bridge
